@@ -565,3 +565,61 @@ func verifC18_past_idle() {
 	c.CloseNow()
 	vObserve("c18pastidle", write, err == nil)
 }
+
+// C10.compressed-writes: two messages that are compressed (at or above the threshold), each written with a context of its
+// own (Write, or a streaming Writer). The first context is cancelled after its call has succeeded: the connection stays
+// open and the second message goes out under its own context; and the second call is bounded by ITS context: when the
+// peer stops reading, it fails when that context ends, whatever became of the first.
+func verifC10_compressed_writes() {
+	client := vParam("client", 1) == 1
+	vInstallRand().concrete = true
+	t := vNewTransport(nil)
+	t.endMode = vEndBlock
+	c := vNewConn(t, client, vCopts(1+vChoose("mode", 2)), 32, 4096)
+	c.flateThreshold = 8
+	doc := []byte(vCorpus[0])
+	streamed := vChoose("streamed", 2) == 1
+	write := func(ctx context.Context) error {
+		if !streamed {
+			return c.Write(ctx, MessageText, doc)
+		}
+		w, err := c.Writer(ctx, MessageText)
+		if err != nil {
+			return err
+		}
+		if _, err := w.Write(doc[:len(doc)/2]); err != nil {
+			return err
+		}
+		if _, err := w.Write(doc[len(doc)/2:]); err != nil {
+			return err
+		}
+		return w.Close()
+	}
+	ctx1, cancel1 := context.WithCancel(vBG)
+	vAssert(write(ctx1) == nil, "C10.compressed.first-write-ok")
+	cancel1()
+	vGhostSettle()
+	time.Sleep(time.Second)
+	vAssert(vIsOpen(c), "C10.harmless.still-open-after-cancel")
+	before := len(t.out)
+	second := vChoose("second", 2)
+	vClassify("second", []string{"peer-reads", "peer-stops-reading"}[second])
+	if second == 0 {
+		ctx2, cancel2 := context.WithTimeout(vBG, 10*time.Second)
+		vAssert(write(ctx2) == nil, "C10.harmless.next-write-works")
+		vAssert(len(t.out) > before, "C10.harmless.next-write-reaches-the-wire")
+		cancel2()
+	} else {
+		t.writeBlock = true
+		ctx2, cancel2 := context.WithTimeout(vBG, time.Second)
+		start := vGhostElapsed()
+		err := write(ctx2)
+		took := vGhostElapsed() - start
+		vAssert(err != nil, "C10.cancel.error")
+		vAssert(took < 2*time.Second+vSlack(), "C10.cancel.prompt")
+		cancel2()
+	}
+	vReach("C10.compressed.done")
+	c.CloseNow()
+	vObserve("c10cw", streamed, second)
+}
